@@ -15,7 +15,7 @@ RULE = (
     "a full data set (<= 14 rows quick / 30 thorough, 1..4 dims, float64 or float32) in the drawn metric's domain (all 47 identifiers, asymmetric and signed ones included); pre_compute_distance(data, file) with "
     "extension .txt or .csv; a drawn split into train / test (/ unlabeled) index arrays in arbitrary order (semi-supervised: unlabeled rows directly follow n_labeled in the file, the only layout "
     "the API expresses); models: supervised, semi-supervised, unsupervised (drawn k range). Oracle: model A = Model(distance, pre_computed_distance=file) driven by index arrays, model B = Model(distance) on the features: "
-    "every node field, conquest order, best_k, n_clusters, predictions and clusters must be equal exactly; get_distances() of B == metric on every ordered pair (min-max rescaled when normalize=True). "
+    "every node field, conquest order, best_k, n_clusters, predictions and clusters must be equal exactly (the path may have been written before with other data, and a second file with the same stem, the other extension and other data may be written after it); get_distances() of B == metric on every ordered pair (min-max rescaled when normalize=True). "
     "non-trivial: the train index array is not 0..n-1 in order and the matrix has >= 3 distinct off-diagonal values; distinct by case hash"
 )
 ASSUMPTIONS = ["np.savetxt's default 18-decimal format round-trips float64 exactly, so exact equality is demanded"]
@@ -98,6 +98,10 @@ def check_case(case):
             # the path is written twice (first with other data of the same size): the file must describe the LAST call
             libcall(g.pre_compute_distance, data[::-1].copy() * 2.0, path, name)
         libcall(g.pre_compute_distance, data.copy(), path, name)
+        if len(data) >= 2 and case["I_train"][0] % 3 == 0:
+            # a second distance file with the same stem but the other extension and other data, written afterwards, is a different file
+            other = os.path.join(tmp, "dist." + ("csv" if case["ext"] == "txt" else "txt"))
+            libcall(g.pre_compute_distance, data[::-1].copy() * 2.0, other, name)
         A = _build(cls, case, pre_computed_distance=path)
         C = _build(cls, case, pre_computed_distance=path)
     require(A.pre_distances is not None and np.asarray(A.pre_distances).shape == (len(data), len(data)), "file:shape", "loaded matrix shape %r for %d samples" % (getattr(A.pre_distances, "shape", None), len(data)))
